@@ -287,6 +287,36 @@ pub fn empty_collection_removed(which: u8) {
     std::mem::forget((r, ty, ex));
 }
 
+/// through CommandExecutor::execute (the dispatch `match`): INCRBY / DECRBY on a stored small integer, any i64
+/// argument: reply = stored +/- n or an error exactly when that leaves i64, and an error changes nothing.
+/// which: 0 INCRBY, 1 DECRBY
+pub fn dispatch_incrdecr(which: u8) {
+    use redis_sim::redis::Command;
+    let mut ex = bare_at(0);
+    let d = vs::u8();
+    vs::assume(d <= 9);
+    let neg = vs::bool();
+    let stored: i64 = if neg { -(d as i64) } else { d as i64 };
+    let mut dat = [0u8; 23];
+    let sds = if neg && d > 0 { dat[0] = b'-'; dat[1] = b'0' + d; SDS::Inline { len: 2, data: dat } } else { dat[0] = b'0' + d; SDS::Inline { len: 1, data: dat } };
+    let stored = if neg && d == 0 { 0 } else { stored };
+    ex.verif_data_mut().insert("k".to_string(), Value::String(sds));
+    let n = vs::i64();
+    let cmd = if which == 0 { Command::IncrBy("k".to_string(), n) } else { Command::DecrBy("k".to_string(), n) };
+    let r = ex.execute(&cmd);
+    let want = if which == 0 { (stored as i128) + (n as i128) } else { (stored as i128) - (n as i128) };
+    let fits = want >= i64::MIN as i128 && want <= i64::MAX as i128 && !(which == 1 && n == i64::MIN);
+    if fits {
+        vcheck!(int_of(&r).map(|x| x as i128) == Some(want), "incr:reply is the exact sum");
+    } else {
+        vcheck!(is_err(&r), "incr:result outside i64 (or DECRBY of i64::MIN) must be an error");
+        let still = match ex.verif_data().get("k") { Some(Value::String(s)) => s.as_bytes().len() == (if neg && d > 0 { 2 } else { 1 }), _ => false };
+        vcheck!(still, "incr:an error leaves the stored value untouched");
+    }
+    vcover!(!fits, "overflowing argument");
+    std::mem::forget((r, cmd, ex));
+}
+
 pub fn twin() {
     let mut ex = bare_at(5);
     let v = sds1(b'v');
